@@ -863,25 +863,29 @@ def strace_crosscheck(case, stats):
 # ------------------------------------------------------------------------------------------------
 
 
+def strace_part(seed, st_, n=6):
+    """recorder completeness against strace for a few generated stores"""
+    import hypothesis
+    picked = []
+
+    @hypothesis.seed(seed)
+    @hypothesis.settings(max_examples=n, database=None, deadline=None,
+                         suppress_health_check=list(hypothesis.HealthCheck),
+                         phases=[hypothesis.Phase.generate], verbosity=hypothesis.Verbosity.quiet)
+    @hypothesis.given(cases())
+    def collect(c):
+        picked.append(c)
+    collect()
+    for c in picked:
+        strace_crosscheck(c, st_)
+
+
 def random_shard(shard, nshards, seed, tier):
     st_ = core.Stats()
     n = (3200 if tier == 'quick' else 64000) // nshards
     core.hyp_search(cases(), check_case, st_, max_examples=n, seed=seed, max_signatures=2 if tier == 'quick' else 4)
     if tier == 'thorough' and shard < 8:
-        # recorder completeness against strace, a few generated stores per backend
-        import hypothesis
-        picked = []
-
-        @hypothesis.seed(seed)
-        @hypothesis.settings(max_examples=6, database=None, deadline=None,
-                             suppress_health_check=list(hypothesis.HealthCheck),
-                             phases=[hypothesis.Phase.generate], verbosity=hypothesis.Verbosity.quiet)
-        @hypothesis.given(cases())
-        def collect(c):
-            picked.append(c)
-        collect()
-        for c in picked:
-            strace_crosscheck(c, st_)
+        strace_part(seed, st_)
     return st_
 
 
